@@ -212,6 +212,9 @@ class Reader(BaseValidator):
                 source_path = source_data_stream_or_path.name
             except AttributeError:
                 source_path = "<io>"
+            if not isinstance(source_path, str) or not source_path:
+                # For example tempfile.SpooledTemporaryFile (None) or tempfile.TemporaryFile (file descriptor number).
+                source_path = "<io>"
         self._location = errors.Location(source_path, has_cell=True)
         self._source_data_stream_or_path = source_data_stream_or_path
         self._on_error = on_error
